@@ -520,6 +520,9 @@ func (p *sparser) primary() *SExpr {
 			return &SExpr{Kind: SBool, Name: t.s}
 		case "nil":
 			return &SExpr{Kind: SNil}
+		case "forall", "exists":
+			p.p--
+			return p.expr()
 		case "old":
 			p.expect("(")
 			a := p.expr()
